@@ -10,6 +10,7 @@
       `_fetch_keys` is `mapM` of a per-name function, the signing loop is a pure fold of a per-key
       function
   §4  the pure signing fold does not depend on the order (nor on repetition) of the signing keys
+  §5  which fields of configuration and bundle the steps read; tools for the examples
 -/
 import KskmProofs.Lemmas.TokRel
 import KskmProofs.Lemmas.SignerKeys
@@ -258,7 +259,7 @@ def sigCheck (verify : Verifier) (keys : List Key) (sig : Signature) : Res Unit 
       | .error k => err k
       | .unknown => unsupported
 
-theorem validateSignatures_ok_iff (verify : Verifier) (b : Bundle) :
+theorem validateSignatures_ok_iff_sigCheck (verify : Verifier) (b : Bundle) :
     validateSignatures verify b = .ok () ↔
       b.keys ≠ [] ∧ b.signatures ≠ [] ∧ hasDupIds b.keys = false ∧
       ∀ σ ∈ b.signatures, sigCheck verify b.keys σ = .ok () := by
@@ -319,7 +320,7 @@ theorem reValid_perm {verify : Verifier} {keys keys' : List Key} {σ : Signature
 theorem validateSignatures_same (verify : Verifier) (b b' : Bundle) (hk : b.keys.Perm b'.keys)
     (hs : SameElems b.signatures b'.signatures) (h : validateSignatures verify b = .ok ()) :
     validateSignatures verify b' = .ok () := by
-  rw [validateSignatures_ok_iff] at h ⊢
+  rw [validateSignatures_ok_iff_sigCheck] at h ⊢
   obtain ⟨h1, h2, h3, h4⟩ := h
   refine ⟨?_, ?_, by rw [← hasDupIds_perm hk]; exact h3, ?_⟩
   · intro e; rw [e] at hk; exact h1 hk.eq_nil
@@ -507,6 +508,42 @@ theorem fetchKeys_perm (ext : Externals) (mods : List P11Module) (cfg : SignerCo
   obtain ⟨cks', h2, hs⟩ := mapM_perm _ hn h1.symm
   rw [← fetchKeys_indexFree ext mods cfg b isPublic ht names' s'] at h2
   exact ⟨cks', (fetchKeys ext mods cfg b isPublic names' tok s').2, Prod.ext h2 rfl, hs⟩
+
+/-- what is fetched for a name depends on the name only through its configured entry -/
+theorem fetchedOf_congr (ext : Externals) (mods : List P11Module) (cfg : SignerConfig) (b : Bundle)
+    (isPublic : Bool) (tok : Token) {n₁ n₂ : String} (h : cfg.kskKeys.lookup n₁ = cfg.kskKeys.lookup n₂) :
+    fetchedOf ext mods cfg b isPublic tok n₁ = fetchedOf ext mods cfg b isPublic tok n₂ := by
+  unfold fetchedOf fetchOne
+  rw [h]
+
+/-- a fetched key carries the label of the configured entry of its name as identifier -/
+theorem fetchedOf_ok {ext : Externals} {mods : List P11Module} {cfg : SignerConfig} {b : Bundle}
+    {isPublic : Bool} {tok : Token} {n : String} {ck : CompositeKey}
+    (h : fetchedOf ext mods cfg b isPublic tok n = .ok ck) :
+    ∃ ksk, cfg.kskKeys.lookup n = some ksk ∧ ck.dns.keyIdentifier = ksk.label := by
+  unfold fetchedOf at h
+  rw [fetchOne_run] at h
+  cases hl : cfg.kskKeys.lookup n with
+  | none => simp [hl] at h
+  | some ksk =>
+    simp only [hl] at h
+    cases hload : loadPkcs11Key mods ksk cfg.kskPolicy b isPublic tok {} with
+    | mk r s1 =>
+      rw [hload] at h
+      cases r with
+      | error e => simp at h
+      | ok o =>
+        cases o with
+        | none => simp at h
+        | some ck' =>
+          simp only at h
+          cases hv : validateDnskeyMatchesKsk ext ksk ck'.dns with
+          | error e => simp [hv] at h
+          | ok u =>
+            simp only [hv, Except.ok.injEq] at h
+            subst h
+            obtain ⟨pk, _, hd⟩ := (loadPkcs11Key_good mods ksk cfg.kskPolicy b isPublic).out _ _ _ _ hload
+            exact ⟨ksk, rfl, (publicKeyToDnssecKey_ok hd).1⟩
 
 /-! ## §4 The signing loop as a pure fold -/
 
@@ -727,6 +764,36 @@ theorem signAllPure_same (f f' : CompositeKey → Res Signature) {sks sks' : Lis
   constructor
   · rintro ⟨sk, hsk, hf⟩; exact ⟨sk, (hs sk).mp hsk, (hgf sk ((hs sk).mp hsk) σ).mpr hf⟩
   · rintro ⟨sk, hsk, hf⟩; exact ⟨sk, (hs sk).mpr hsk, (hgf sk hsk σ).mp hf⟩
+
+/-! ## What the steps read of configuration and bundle -/
+
+theorem key_ext {a b : Key} (h1 : a.keyIdentifier = b.keyIdentifier) (h2 : a.keyTag = b.keyTag)
+    (h3 : a.ttl = b.ttl) (h4 : a.flags = b.flags) (h5 : a.protocol = b.protocol)
+    (h6 : a.algorithm = b.algorithm) (h7 : a.publicKey = b.publicKey) : a = b := by
+  cases a; cases b; simp_all
+
+theorem loadPkcs11Key_bundle_congr (mods : List P11Module) (ksk : KskKey) (pol : KskPolicy) (b b' : Bundle)
+    (isPublic : Bool) (h1 : b'.inception = b.inception) (h2 : b'.expiration = b.expiration) :
+    loadPkcs11Key mods ksk pol b' isPublic = loadPkcs11Key mods ksk pol b isPublic := by
+  unfold loadPkcs11Key
+  rw [h1, h2]
+
+/-- `_fetch_keys` reads the configured keys, the KSK policy and the bundle's two times, nothing else -/
+theorem fetchKeys_congr (ext : Externals) (mods : List P11Module) (cfg cfg' : SignerConfig) (b b' : Bundle)
+    (isPublic : Bool) (hk : cfg'.kskKeys = cfg.kskKeys) (hp : cfg'.kskPolicy = cfg.kskPolicy)
+    (h1 : b'.inception = b.inception) (h2 : b'.expiration = b.expiration) (names : List String) :
+    fetchKeys ext mods cfg' b' isPublic names = fetchKeys ext mods cfg b isPublic names := by
+  induction names with
+  | nil => simp [fetchKeys]
+  | cons name rest ih =>
+    rw [fetchKeys, fetchKeys, hk, hp]
+    simp only [loadPkcs11Key_bundle_congr mods _ _ b b' isPublic h1 h2, ih]
+
+theorem signKeys_bundle_congr (ext : Externals) (b b' : Bundle) (keys : List Key) (sk : CompositeKey)
+    (pol : KskPolicy) (h1 : b'.inception = b.inception) (h2 : b'.expiration = b.expiration) :
+    signKeys ext b' keys sk pol = signKeys ext b keys sk pol := by
+  unfold signKeys
+  rw [h1, h2]
 
 /-! ## Tools for non-vacuity examples -/
 
